@@ -2778,6 +2778,202 @@ def generate_offline_evaluate():
 # ---- END offline evaluate (generate_offline_evaluate) ---------------------------------------------------------------
 
 
+# ---- BEGIN explainer driver (generate_expl_driver: Explanations.__setitem__, explain() -> Rtamt/Py/GeneratedExplDrv.lean) ----
+DRV_EXPLAINER_LTL = "rtamt/explanation/ltl/discrete_time/explainer.py"
+DRV_EXPLAINER_STL = "rtamt/explanation/stl/discrete_time/explainer.py"
+DRV_SPEC_FILE = "rtamt/spec/abstract_specification.py"
+OUT_EXPL_DRV = os.path.join(os.path.dirname(HERE), "lean", "Rtamt", "Py", "GeneratedExplDrv.lean")
+
+
+class DrvTr:
+    """Methods of the explainer's driver (`Explanations.__setitem__`, `explain()`) -> terms of `Rtamt/Py/ExplDrv.lean`.
+    A name is a local (`.loc`) when the function binds it (a parameter, the target of an assignment or of a `for`); any other name
+    is a global: the callee of `f(..)` / the class of `G.m(..)`, nothing else."""
+
+    def __init__(self, fn):
+        a = fn.args
+        self.locals = set(x.arg for x in a.args)
+        def walk(n):
+            for c in ast.iter_child_nodes(n):
+                if isinstance(c, (ast.ListComp, ast.SetComp, ast.DictComp, ast.GeneratorExp, ast.Lambda, ast.FunctionDef, ast.ClassDef)):
+                    continue                      # a scope of its own
+                if isinstance(c, ast.Name) and isinstance(c.ctx, ast.Store):
+                    self.locals.add(c.id)
+                walk(c)
+        walk(fn)
+
+    def args(self, xs):
+        return "[%s]" % ", ".join(self.expr(x) for x in xs)
+
+    def expr(self, e):
+        if isinstance(e, ast.Name) and isinstance(e.ctx, ast.Load) and e.id in self.locals:
+            return "(.loc %s)" % q(e.id)
+        if isinstance(e, ast.Attribute) and isinstance(e.ctx, ast.Load):
+            return "(.attr %s %s)" % (self.expr(e.value), q(e.attr))
+        if isinstance(e, ast.Constant):
+            if e.value is None:
+                return ".none_"
+            if e.value is True:
+                return ".true_"
+            if e.value is False:
+                return ".false_"
+            if isinstance(e.value, int):
+                return "(.int %d)" % e.value
+        if isinstance(e, ast.List) and not any(isinstance(x, ast.Starred) for x in e.elts):
+            if len(e.elts) == 0:
+                return ".emptyList"
+            if len(e.elts) == 1:
+                return "(.list1 %s)" % self.expr(e.elts[0])
+            if len(e.elts) == 2:
+                return "(.list2 %s %s)" % (self.expr(e.elts[0]), self.expr(e.elts[1]))
+        if isinstance(e, ast.Subscript) and isinstance(e.ctx, ast.Load) and isinstance(e.slice, ast.Slice) \
+                and e.slice.lower is not None and e.slice.upper is None and e.slice.step is None:
+            return "(.sliceFrom %s %s)" % (self.expr(e.value), self.expr(e.slice.lower))       # e[lo:]
+        if isinstance(e, ast.Subscript) and isinstance(e.ctx, ast.Load) and not isinstance(e.slice, (ast.Slice, ast.Tuple)):
+            return "(.idx %s %s)" % (self.expr(e.value), self.expr(e.slice))
+        if isinstance(e, ast.UnaryOp) and isinstance(e.op, ast.USub):
+            return "(.neg %s)" % self.expr(e.operand)
+        if isinstance(e, ast.Compare) and len(e.ops) == 1:
+            if isinstance(e.ops[0], ast.Lt):
+                return "(.lt %s %s)" % (self.expr(e.left), self.expr(e.comparators[0]))
+            if isinstance(e.ops[0], ast.In):
+                return "(.isIn %s %s)" % (self.expr(e.left), self.expr(e.comparators[0]))
+        if isinstance(e, ast.BinOp) and isinstance(e.op, ast.Add):
+            return "(.add %s %s)" % (self.expr(e.left), self.expr(e.right))
+        if isinstance(e, ast.Call) and isinstance(e.func, ast.Name) and e.func.id == "list" and "list" not in self.locals \
+                and len(e.args) == 1 and not e.keywords and not isinstance(e.args[0], ast.Starred):
+            return "(.listOf %s)" % self.expr(e.args[0])
+        if isinstance(e, ast.ListComp) and len(e.generators) == 1:
+            g = e.generators[0]
+            if isinstance(g.target, ast.Name) and not g.ifs and not g.is_async:
+                it = self.expr(g.iter)                       # evaluated in the enclosing scope
+                saved = set(self.locals)
+                self.locals.add(g.target.id)
+                body = self.expr(e.elt)
+                self.locals = saved
+                return "(.comp %s %s %s)" % (body, q(g.target.id), it)
+        return "(.unsupported %s)" % q(src(e))
+
+    def rhs(self, e):
+        """An expression, or one call (calls have effects: they are not nested into expressions)."""
+        if isinstance(e, ast.Call) and not e.keywords and not any(isinstance(a, ast.Starred) for a in e.args):
+            f = e.func
+            if isinstance(f, ast.Name) and f.id not in self.locals and f.id != "list":
+                return "(.call %s %s)" % (q(f.id), self.args(e.args))
+            if isinstance(f, ast.Attribute):
+                if isinstance(f.value, ast.Name) and f.value.id not in self.locals:
+                    return "(.methG %s %s %s)" % (q(f.value.id), q(f.attr), self.args(e.args))
+                return "(.meth %s %s %s)" % (self.expr(f.value), q(f.attr), self.args(e.args))
+            return "(.unsupported %s)" % q(src(e))
+        return "(.pure %s)" % self.expr(e)
+
+    def block(self, stmts):
+        items = [self.stmt(s) for s in stmts]
+        items = [i for i in items if i != ".skip"]
+        if not items:
+            return ".skip"
+        out = items[-1]
+        for i in reversed(items[:-1]):
+            out = "(.seq %s %s)" % (i, out)
+        return out
+
+    def stmt(self, s):
+        if isinstance(s, ast.Pass):
+            return ".skip"
+        if isinstance(s, ast.Expr) and isinstance(s.value, ast.Constant):
+            return ".skip"                                    # a docstring
+        if isinstance(s, ast.Expr) and isinstance(s.value, ast.Call):
+            return "(.expr %s)" % self.rhs(s.value)
+        if isinstance(s, ast.Assign) and len(s.targets) == 1:
+            t = s.targets[0]
+            if isinstance(t, ast.Name):
+                return "(.setLoc %s %s)" % (q(t.id), self.rhs(s.value))
+            if isinstance(t, ast.Attribute):
+                return "(.setAttr %s %s %s)" % (self.expr(t.value), q(t.attr), self.rhs(s.value))
+        if isinstance(s, ast.If):
+            return "(.ite %s %s %s)" % (self.expr(s.test), self.block(s.body), self.block(s.orelse))
+        if isinstance(s, ast.For) and not s.orelse and isinstance(s.target, ast.Name):
+            return "(.forIn %s %s %s)" % (q(s.target.id), self.expr(s.iter), self.block(s.body))
+        return "(.unsupported %s)" % q(src(s))
+
+
+def _drv_method(cls, mname):
+    """The one undecorated definition of `mname` in class `cls` with plain positional parameters, as a `DMethod`."""
+    cands = [n for n in (cls.body if cls is not None else []) if isinstance(n, (ast.FunctionDef, ast.AsyncFunctionDef)) and n.name == mname]
+    if len(cands) != 1:
+        return "{ params := [], body := (.unsupported %s) }" % q("%d definitions of %s" % (len(cands), mname))
+    m = cands[0]
+    a = m.args
+    if not isinstance(m, ast.FunctionDef) or m.decorator_list or a.vararg or a.kwarg or a.kwonlyargs or a.defaults or a.posonlyargs:
+        return "{ params := [], body := (.unsupported %s) }" % q("signature of " + mname)
+    tr = DrvTr(m)
+    return "{ params := [%s], body := %s }" % (", ".join(q(x.arg) for x in a.args), tr.block(m.body))
+
+
+def _drv_module(path):
+    tree = ast.parse(open(os.path.join(REPO, path)).read())
+    cls = {n.name: n for n in tree.body if isinstance(n, ast.ClassDef)}
+    defs = []
+    for n in tree.body:
+        if isinstance(n, (ast.ClassDef, ast.FunctionDef, ast.AsyncFunctionDef)):
+            defs.append(n.name)
+        elif isinstance(n, (ast.Import, ast.ImportFrom)):
+            defs.append(src(n))
+        elif not (isinstance(n, ast.Expr) and isinstance(n.value, ast.Constant)):
+            defs.append(src(n))
+    return cls, defs
+
+
+def _drv_members(cls):
+    """(bases, names bound in the class body) - which methods a class defines decides what an operation on its instances runs."""
+    if cls is None:
+        return "([], [])"
+    names = []
+    for n in cls.body:
+        if isinstance(n, (ast.FunctionDef, ast.AsyncFunctionDef, ast.ClassDef)):
+            names.append(n.name)
+        elif isinstance(n, ast.Expr) and isinstance(n.value, ast.Constant):
+            continue
+        elif isinstance(n, ast.Pass):
+            continue
+        else:
+            names.append(src(n))
+    bases = [src(b) for b in cls.bases] + [src(k) for k in cls.keywords]
+    return "([%s], [%s])" % (", ".join(q(b) for b in bases), ", ".join(q(x) for x in names))
+
+
+def generate_expl_driver():
+    """The result container of the explainer (`Explanations`), `explain()` of the two explainer classes and
+    `AbstractOfflineSpecification.explain`."""
+    lcls, ldefs = _drv_module(DRV_EXPLAINER_LTL)
+    scls, sdefs = _drv_module(DRV_EXPLAINER_STL)
+    pcls, _ = _drv_module(DRV_SPEC_FILE)
+    lines = ["/- GENERATED by harness/py2lean.py from %s, %s and %s of /repo on every run - do not edit. -/"
+             % (DRV_EXPLAINER_LTL, DRV_EXPLAINER_STL, DRV_SPEC_FILE),
+             "import Rtamt.Py.ExplDrv", "", "namespace Rtamt.Py.Gen.ExplDrv", "open Rtamt Rtamt.Py Rtamt.Py.Drv", ""]
+    for doc, nm, cls, mname in (("Explanations.__setitem__", "setitem", lcls.get("Explanations"), "__setitem__"),
+                                ("LTLExplainer.explain", "ltl_explain", lcls.get("LTLExplainer"), "explain"),
+                                ("STLExplainer.explain", "stl_explain", scls.get("STLExplainer"), "explain"),
+                                ("AbstractOfflineSpecification.explain", "spec_explain", pcls.get("AbstractOfflineSpecification"), "explain")):
+        lines.append("/-- `%s` -/" % doc)
+        lines.append("def %s : DMethod :=\n  %s" % (nm, _drv_method(cls, mname)))
+        lines.append("")
+    lines.append("/-- `class Explanations`: its bases and the names its body binds (a `dict` that overrides `__setitem__` only) -/")
+    lines.append("def explanationsClass : List String × List String :=\n  %s" % _drv_members(lcls.get("Explanations")))
+    lines.append("")
+    for tag, cname, cls in (("ltl", "LTLExplainer", lcls.get("LTLExplainer")), ("stl", "STLExplainer", scls.get("STLExplainer"))):
+        lines.append("/-- the bases of `%s` -/" % cname)
+        lines.append("def %sExplainerBases : List String :=\n  [%s]" % (tag, ", ".join(q(src(b)) for b in (cls.bases if cls is not None else []))))
+        lines.append("")
+    for tag, path, defs in (("ltl", DRV_EXPLAINER_LTL, ldefs), ("stl", DRV_EXPLAINER_STL, sdefs)):
+        lines.append("/-- what the module `%s` binds at top level (imports as written, classes and functions by name) -/" % path)
+        lines.append("def %sModule : List String :=\n  [%s]" % (tag, ",\n   ".join(q(d) for d in defs)))
+        lines.append("")
+    lines.append("end Rtamt.Py.Gen.ExplDrv")
+    return "\n".join(lines) + "\n"
+# ---- END explainer driver (generate_expl_driver) ----
+
+
 # ---- BEGIN specification-level forwarding (rtamt/spec/abstract_specification.py -> Rtamt/Py/GeneratedFwd.lean) ----
 SPEC_FILE = "rtamt/spec/abstract_specification.py"
 OUT_FWD = os.path.join(os.path.dirname(HERE), "lean", "Rtamt", "Py", "GeneratedFwd.lean")
@@ -3037,6 +3233,7 @@ def main():
     write_if_changed(OUT_EXPL, generate_expl())
     write_if_changed(OUT_GLUE, generate_glue())
     write_if_changed(OUT_GLUE_DN, generate_glue_dense())     # dense-time glue
+    write_if_changed(OUT_EXPL_DRV, generate_expl_driver())     # explainer driver
     write_if_changed(OUT_OFFEVAL, generate_offline_evaluate())     # offline evaluate
     write_if_changed(OUT_GLUE_UPD, generate_glue_update())   # discrete-time online update()/reset() as whole methods
     write_if_changed(OUT_FWD, generate_fwd())
